@@ -177,6 +177,10 @@ func (c *gen) class() *Expr {
 			e.Chars = append(e.Chars, c.rune_())
 		case k < 8 || !c.cfg.UClasses || (e.IC && !c.cfg.ICUnsafe):
 			pairs := [][2]rune{{'a', 'c'}, {'a', 'z'}, {'A', 'Z'}, {'0', '9'}, {'0', '1'}, {'b', 'k'}, {'À', 'ÿ'}, {'一', '鿿'}}
+			if !e.IC {
+				// ranges that cross the end of Basic Latin
+				pairs = append(pairs, [2]rune{'{', 'é'}, [2]rune{' ', '￿'}, [2]rune{'~', '¡'})
+			}
 			if c.cfg.ICUnsafe {
 				pairs = append(pairs, [2]rune{'0', 'Z'}, [2]rune{'Z', 'a'}, [2]rune{'A', 'z'}, [2]rune{'_', 'b'}, [2]rune{'c', 'a'})
 			}
